@@ -236,4 +236,267 @@ theorem init_inv (limit : Nat) : Inv (init limit) := by
   constructor <;> simp [init, rest, nsplits, Gen.C08.highMul, Gen.C08.chunkFloor, Gen.C08.lowDiv]
   omega
 
+/-! ### entry points of the consumer coroutines -/
+
+theorem post_inv {s : S} {acc : Bytes} {r : S × Out} (hi : Inv s) (h : Post s acc r) : Inv r.1 := by
+  obtain ⟨⟨d, hr, -⟩, -, -, -⟩ := h
+  exact reach_inv hi hr
+
+theorem setChunk_parked (s : S) (n : Nat) : (setChunk s n).parked = s.parked := by
+  unfold setChunk; split <;> rfl
+
+theorem post_setChunk {s : S} {acc : Bytes} {r : S × Out} (n : Nat) (h : Post (setChunk s n) acc r) :
+    Post s acc r :=
+  post_of_reach (Reach.one (Move.setChunk s n)) (by simpa using h)
+
+theorem startRead_post {s : S} (hi : Inv s) (hp : s.parked = none) (n : Option Nat) (it : Bool) :
+    Post s [] (startRead s n it) := by
+  unfold startRead
+  split
+  · exact post_raise hp _ _
+  · split
+    · exact ⟨⟨[], Reach.refl s, by intro _; simp [outBytes, pendAcc, hp]⟩, by intro _; exact hp, (by intro h; cases h), accok_of_none hp⟩
+    · rename_i n _
+      exact post_setChunk n (contRead_post (setChunk_inv hi n) (by rw [setChunk_parked]; exact hp) n it)
+    · exact post_setChunk _ (contReadAll_post _ [] it (setChunk_inv hi _) (by rw [setChunk_parked]; exact hp))
+
+theorem startReadAny_post {s : S} (hi : Inv s) (hp : s.parked = none) (it : Bool) :
+    Post s [] (startReadAny s it) := by
+  unfold startReadAny
+  split
+  · exact post_raise hp _ _
+  · exact contReadAny_post hi hp it
+
+theorem startReadUntil_post {s : S} (hi : Inv s) (hp : s.parked = none) (sep : Bytes) (m : Nat) (it : Bool) :
+    Post s [] (startReadUntil s sep m it) := by
+  unfold startReadUntil
+  split
+  · exact ⟨⟨[], Reach.refl s, by intro _; simp [outBytes, pendAcc, hp]⟩, by intro _; exact hp, (by intro h; cases h), accok_of_none hp⟩
+  · split
+    · exact post_raise hp _ _
+    · exact contReadUntil_post hi hp sep _ [] it
+
+theorem startReadExactly_post {s : S} (hi : Inv s) (hp : s.parked = none) (n : Nat) :
+    Post s [] (startReadExactly s n) := by
+  unfold startReadExactly
+  split
+  · exact post_raise hp _ _
+  · split
+    · exact ⟨⟨[], Reach.refl s, by intro _; simp [outBytes, pendAcc, hp]⟩, by intro _; exact hp, (by intro h; cases h), accok_of_none hp⟩
+    · exact post_setChunk n (contReadExactly_post _ n [] (setChunk_inv hi n) (by rw [setChunk_parked]; exact hp))
+
+theorem resume_post {s : S} (hi : Inv s) (p : Pend) (hw : s.waiter = false) (hpk : s.parked = some p)
+    (ha : AccOk s) : Post s p.acc (resume s p) := by
+  have hm := Move.unpark s hw
+  have hi1 := move_inv hi hm
+  have hfp : s.fut ≠ .pending := by
+    intro h; have := hi.fut_pending h; rw [hw] at this; cases this
+  refine post_of_reach (Reach.one hm) ?_
+  simp only [List.append_nil]
+  unfold resume
+  simp only []
+  split
+  · rename_i h; exact absurd h hfp
+  · exact post_raise rfl _ _
+  · split
+    · rename_i n hk
+      have h0 : p.acc = [] := ha p hpk (by rw [hk]; rfl)
+      rw [h0]; exact contRead_post hi1 rfl n p.iter
+    · rename_i hk
+      have h0 : p.acc = [] := ha p hpk (by rw [hk]; rfl)
+      rw [h0]; exact contReadAny_post hi1 rfl p.iter
+    · exact contReadAll_post _ p.acc p.iter hi1 rfl
+    · exact contReadUntil_post hi1 rfl _ _ p.acc p.iter
+    · exact contReadExactly_post _ _ p.acc hi1 rfl
+    · rename_i hk
+      have h0 : p.acc = [] := ha p hpk (by rw [hk]; rfl)
+      rw [h0]; exact contReadChunk_post hi1 rfl p.iter
+
+theorem doReadNowait_post {s : S} (hi : Inv s) (hp : s.parked = none) (n : Option Nat) :
+    Post s [] (doReadNowait s n) := by
+  unfold doReadNowait
+  split
+  · rename_i h; simp [hp] at h
+  · split
+    · exact post_raise hp _ _
+    · split
+      · rename_i hw; have := (hi.waiter_parked hw).1; rw [hp] at this; cases this
+      · obtain ⟨d, hr, hd, -, -⟩ := readNowait_reach hi n
+        have hq := quiet_readNowait s n
+        have := post_data (acc := []) (by rw [hq.parked]; exact hp) hr
+        simpa [hd] using this
+
+/-! ### the step-level invariant -/
+
+structure SInv (s : S) : Prop where
+  inv : Inv s
+  accok : AccOk s
+  deliv : s.lost = false → s.delivered ++ pendAcc s = s.taken
+
+/-- what one `core` call guarantees -/
+structure CoreSpec (s : S) (r : S × Out) : Prop where
+  inv : Inv r.1
+  accok : AccOk r.1
+  delivered : r.1.delivered = s.delivered
+  deliv : r.1.lost = false → s.delivered ++ outBytes r.2 ++ pendAcc r.1 = r.1.taken
+
+theorem outBytes_iterOut (it : Bool) (o : Out) : outBytes (iterOut it o) = outBytes o := by
+  unfold iterOut
+  split
+  · split <;> simp [outBytes]
+  · rfl
+
+theorem post_core {s : S} (hs : SInv s) {acc : Bytes} {r : S × Out} (hacc : pendAcc s = acc)
+    (h : Post s acc r) (it : Bool) : CoreSpec s (r.1, iterOut it r.2) := by
+  obtain ⟨⟨d, hr, hd⟩, -, -, ha⟩ := h
+  have hf := reach_frame hr
+  have ht := reach_taken hs.inv hr
+  refine ⟨reach_inv hs.inv hr, ha, hf.delivered, ?_⟩
+  intro hl
+  have hl0 : s.lost = false := by
+    cases h : s.lost with
+    | false => rfl
+    | true => have := hf.lost h; simp only [] at hl; rw [hl] at this; cases this
+  have h1 := hs.deliv hl0
+  have h2 := hd hl
+  simp only [outBytes_iterOut]
+  rw [ht.1, ← h1, hacc, List.append_assoc, List.append_assoc, h2]
+
+/-- producer-side operations leave the consumer bookkeeping alone -/
+structure ProdFrame (s : S) (r : S × Out) : Prop where
+  parked : r.1.parked = s.parked
+  taken : r.1.taken = s.taken
+  delivered : r.1.delivered = s.delivered
+  lost : r.1.lost = s.lost
+  out : outBytes r.2 = []
+
+theorem prod_core {s : S} (hs : SInv s) {r : S × Out} (hi : Inv r.1) (h : ProdFrame s r) : CoreSpec s r := by
+  refine ⟨hi, ?_, h.delivered, ?_⟩
+  · intro p hp; rw [h.parked] at hp; exact hs.accok p hp
+  · intro hl
+    rw [h.lost] at hl
+    have := hs.deliv hl
+    rw [h.out, h.taken, ← this]
+    simp [pendAcc, h.parked]
+
+theorem feed_frame (s : S) (d : Bytes) : ProdFrame s (feed s d) := by
+  unfold feed wake pauseReading
+  split
+  · exact ⟨rfl, rfl, rfl, rfl, rfl⟩
+  · split
+    · exact ⟨rfl, rfl, rfl, rfl, rfl⟩
+    · simp only []
+      split <;> split <;> (try split) <;> exact ⟨rfl, rfl, rfl, rfl, rfl⟩
+
+theorem beginChunk_frame (s : S) : ProdFrame s (beginChunk s) := by
+  unfold beginChunk
+  split
+  · exact ⟨rfl, rfl, rfl, rfl, rfl⟩
+  · split <;> exact ⟨rfl, rfl, rfl, rfl, rfl⟩
+
+theorem endChunk_frame (s : S) : ProdFrame s (endChunk s) := by
+  unfold endChunk wake pauseReading
+  split
+  · exact ⟨rfl, rfl, rfl, rfl, rfl⟩
+  · simp only []
+    split
+    · exact ⟨rfl, rfl, rfl, rfl, rfl⟩
+    · split <;> split <;> (try split) <;> exact ⟨rfl, rfl, rfl, rfl, rfl⟩
+
+theorem feedEof_frame (s : S) : ProdFrame s (feedEof s) := by
+  unfold feedEof wake resumeReading
+  simp only []
+  split <;> split <;> exact ⟨rfl, rfl, rfl, rfl, rfl⟩
+
+theorem setExc_frame (s : S) (e : Nat) : ProdFrame s (setExc s e) := by
+  unfold setExc wakeExc
+  simp only []
+  split <;> exact ⟨rfl, rfl, rfl, rfl, rfl⟩
+
+theorem setChunk_frame (s : S) (n : Nat) : ProdFrame s (setChunk s n, Out.ok) := by
+  unfold setChunk
+  split <;> exact ⟨rfl, rfl, rfl, rfl, rfl⟩
+
+theorem same_core {s : S} (hs : SInv s) (o : Out) (ho : outBytes o = []) : CoreSpec s (s, o) :=
+  prod_core hs hs.inv ⟨rfl, rfl, rfl, rfl, ho⟩
+
+theorem consumer_core {s : S} (hs : SInv s) (it : Bool) (f : S → S × Out)
+    (hf : s.parked = none → Post s [] (f s)) : CoreSpec s (consumer s it f) := by
+  unfold consumer
+  split
+  · exact same_core hs _ rfl
+  · rename_i hp
+    have hp' : s.parked = none := by simpa using hp
+    exact post_core hs (by simp [pendAcc, hp']) (hf hp') it
+
+theorem core_spec {s : S} (hs : SInv s) (op : Op) : CoreSpec s (core s op) := by
+  cases op with
+  | feed d => exact prod_core hs (feed_inv hs.inv d) (feed_frame s d)
+  | beginChunk => exact prod_core hs (beginChunk_inv hs.inv) (beginChunk_frame s)
+  | endChunk => exact prod_core hs (endChunk_inv hs.inv) (endChunk_frame s)
+  | feedEof => exact prod_core hs (feedEof_inv hs.inv) (feedEof_frame s)
+  | setExc e => exact prod_core hs (setExc_inv hs.inv e) (setExc_frame s e)
+  | disconnect => exact prod_core hs (disconnect_inv hs.inv) ⟨rfl, rfl, rfl, rfl, rfl⟩
+  | setChunkSize n => exact prod_core hs (setChunk_inv hs.inv n) (setChunk_frame s n)
+  | read n it =>
+    refine consumer_core hs it (fun s => startRead (if it = true then setChunk s (n.getD 0) else s) n it) (fun hp => ?_)
+    split
+    · exact post_setChunk _ (startRead_post (setChunk_inv hs.inv _) (by rw [setChunk_parked]; exact hp) n it)
+    · exact startRead_post hs.inv hp n it
+  | readAny it => exact consumer_core hs it (fun s => startReadAny s it) (fun hp => startReadAny_post hs.inv hp it)
+  | readUntil sep m it => exact consumer_core hs it (fun s => startReadUntil s sep m it) (fun hp => startReadUntil_post hs.inv hp sep m it)
+  | readExactly n => exact consumer_core hs false (fun s => startReadExactly s n) (fun hp => startReadExactly_post hs.inv hp n)
+  | readChunk it => exact consumer_core hs it (fun s => contReadChunk s it) (fun hp => contReadChunk_post hs.inv hp it)
+  | readNowait n =>
+    simp only [core]
+    by_cases hp : s.parked = none
+    · have := post_core hs (by simp [pendAcc, hp]) (doReadNowait_post hs.inv hp n) false
+      simpa [iterOut] using this
+    · have hps : s.parked.isSome = true := by
+        cases h : s.parked with
+        | none => exact absurd h hp
+        | some _ => rfl
+      unfold doReadNowait
+      split
+      · exact same_core hs _ rfl
+      · rename_i hc
+        have hw : s.waiter = true := by simpa [hps] using hc
+        split
+        · -- raise with nothing taken: only `lost` is rewritten to itself
+          unfold raise
+          exact prod_core hs { hs.inv with } ⟨rfl, rfl, rfl, by simp, rfl⟩
+        · simp only [hw, if_true]
+          exact same_core hs _ rfl
+  | wakeup =>
+    simp only [core]
+    split
+    · exact same_core hs _ rfl
+    · rename_i p hpk
+      split
+      · exact same_core hs _ rfl
+      · rename_i hw
+        have hw' : s.waiter = false := by simpa using hw
+        exact post_core hs (by simp [pendAcc, hpk]) (resume_post hs.inv p hw' hpk hs.accok) p.iter
+
+theorem step_sinv {s : S} (hs : SInv s) (op : Op) : SInv (step s op).1 := by
+  have hs0 : SInv { s with evs := [] } :=
+    ⟨evs_inv hs.inv [], hs.accok, hs.deliv⟩
+  have hc := core_spec hs0 op
+  unfold step
+  simp only []
+  refine ⟨{ hc.inv with }, hc.accok, ?_⟩
+  intro hl
+  have := hc.deliv hl
+  show (core { s with evs := [] } op).1.delivered ++ outBytes (core { s with evs := [] } op).2 ++
+      pendAcc (core { s with evs := [] } op).1 = _
+  rw [hc.delivered]; exact this
+
+theorem init_sinv (limit : Nat) : SInv (init limit) :=
+  ⟨init_inv limit, accok_of_none rfl, by intro _; rfl⟩
+
+theorem exec_sinv {s : S} (hs : SInv s) (ops : List Op) : SInv (exec s ops) := by
+  induction ops generalizing s with
+  | nil => exact hs
+  | cons op ops ih => exact ih (step_sinv hs op)
+
 end Aio.C08
